@@ -14,7 +14,7 @@ func init() {
 		id: "C09", level: "proof", run: runC09,
 		trusted: []string{"encoding/xml marshals a uint / *uint attribute as its decimal value"},
 		explain: "Whole statement, as facts over every path: (O1) in Client.recv, for each dynamic packet type that NextPacket can return, every feasible path through one loop iteration increments SMState.Inbound exactly once if the type is a stanza (Message, Presence, *IQ — the result types of decodeClient) and never otherwise; (O2) nothing else writes the counter except whole-state resets that start a fresh session, none of which can precede a successful resumption; (O3) the h of <a/> is a plain load of the counter and the h of <resume/> its address — no arithmetic; (O4) the answer is sent synchronously by the receive goroutine, and recv is started only right after a session was established.",
-		assume: []string{"one receive goroutine per session (checked: recv is started only by Connect/Resume after connect() succeeded)", "every stanza is delivered by NextPacket exactly once (C02/C05)"},
+		assume:  []string{"one receive goroutine per session (checked: recv is started only by Connect/Resume after connect() succeeded)", "every stanza is delivered by NextPacket exactly once (C02/C05)"},
 	})
 }
 
